@@ -318,8 +318,12 @@ COMPANIONS = {
 }
 
 # profile = rows seeded per table before planning: (default size, {name: size} overrides)
+# (name, default rows per table, per-table overrides[, value distribution]):  distribution {"col0_mod": a, "mod": b}
+# draws the first column from a values and the others from b values (default: about sqrt(n) values per column).
+# "hot": many rows (> 16, > 32) share one first-column value -- the executor's cached-trie-node / re-sorting paths.
 PROFILES_QUICK = [
     ("p0", 0, {}),
+    ("hot", 120, {}, {"col0_mod": 3, "mod": 40}),
     ("p3", 3, {}),
     ("p60", 60, {}),
     ("skew", 60, {"R": 3, "T": 400}),
@@ -362,7 +366,11 @@ def ctor_pool(types, lo, n, depth=2):
     return pool
 
 
-def profile_rows(name, arity, is_func, n, seed, types=None):
+def profile_parts(profile):
+    return profile[0], profile[1], profile[2], (profile[3] if len(profile) > 3 else None)
+
+
+def profile_rows(name, arity, is_func, n, seed, types=None, dist=None):
     """n distinct-key rows over the disjoint big range; joinable among themselves (small modulus).
     -> list of (key tuple, value | None); E-typed positions hold constructor terms over big integers."""
     g = lcg(zlib.crc32(("%s/%d" % (name, seed)).encode()) & 0xFFFF)
@@ -373,7 +381,8 @@ def profile_rows(name, arity, is_func, n, seed, types=None):
     tries = 0
     while len(rows) < n and tries < 50 * n + 100:
         tries += 1
-        key = tuple((epool[next(g) % len(epool)] if (t == "E" and epool) else BIG + (next(g) % m)) for t in at)
+        key = tuple((epool[next(g) % len(epool)] if (t == "E" and epool) else
+                     BIG + (next(g) % ((dist["col0_mod"] if j == 0 else dist["mod"]) if dist else m))) for j, t in enumerate(at))
         if key in rows:
             continue
         rows[key] = BIG + (next(g) % m)
@@ -425,11 +434,11 @@ def render_program(atoms, no_decomp, profile, steps, seed=0, rules=None, head=No
     lines.append("(ruleset filt)")
     for rs in sorted(rules):
         lines.append("(ruleset %s)" % rs)
-    pname, default, over = profile
+    pname, default, over, dist = profile_parts(profile)
     seeds = []
     for name, ar in sorted(sig.items()):
         n = over.get(name, default)
-        for key, val in profile_rows(name, ar, kind_of(name) != "rel", n, seed, types):
+        for key, val in profile_rows(name, ar, kind_of(name) != "rel", n, seed, types, dist):
             seeds.append(fact_text(name, key, val))
     if seeds:
         lines.append("(rule () (%s) :ruleset seed)" % " ".join(seeds))
